@@ -46,10 +46,11 @@ def run(ctx):
                   f"({'`' + A.unparse(leaves[0]) + '` in the Empty handler' if leaves else 'queue.Empty is not handled'}): a worker that outpaces the feeder quits for good, "
                   f"items queued afterwards are never processed and map_async still returns normally", node=got.node)
     itemv = got["item"]
-    cmpn = [n for n in A.walk(iq.node) if isinstance(n, ast.Compare) and isinstance(n.ops[0], (ast.Is, ast.Eq, ast.IsNot, ast.NotEq)) and A.unparse(n.left) == itemv]
+    cmpn = [n for n in A.walk(iq.node) if isinstance(n, ast.Compare) and len(n.ops) == 1 and isinstance(n.ops[0], (ast.Is, ast.Eq, ast.IsNot, ast.NotEq))
+            and itemv in (A.unparse(n.left), A.unparse(n.comparators[0]))]
     ctx.require(len(cmpn) == 1, "iter_queue: stop-marker test not found")
     c = cmpn[0]
-    rhs = c.comparators[0]
+    rhs = c.comparators[0] if A.unparse(c.left) == itemv else c.left  # == / is are symmetric; the canonical form may have swapped the operands
     by_identity = isinstance(c.ops[0], ast.Is)
     ctx.check("R1", iq, by_identity, "marker-compared-by-identity", "the stop marker is recognised by identity (`is`)", f"iter_queue recognises the stop marker with `{A.unparse(c)}`: an input item that merely equals it stops a worker", node=c)
     marker_param = isinstance(rhs, ast.Name) and rhs.id in ps
